@@ -219,6 +219,17 @@ def run_parallel(fns, jobs=None):
 # a check run
 
 
+def abbreviate(v, keep=24):
+    """Shorten long arrays inside an event so that it can be shown as a sample."""
+    if isinstance(v, list):
+        if len(v) > keep:
+            return [abbreviate(x, keep) for x in v[:keep]] + ["...(%d more)" % (len(v) - keep)]
+        return [abbreviate(x, keep) for x in v]
+    if isinstance(v, dict):
+        return {k: abbreviate(x, keep) for k, x in v.items()}
+    return v
+
+
 class Check:
     def __init__(self, pid, tier):
         self.pid = pid
@@ -293,10 +304,16 @@ class Check:
                 break
             try:
                 with open(p) as fh:
-                    for _ in range(3):
+                    took = 0
+                    for _ in range(40):
                         ln = fh.readline()
-                        if ln.strip() and len(ln) < 600:
-                            self.samples.append(json.loads(ln))
+                        if not ln:
+                            break
+                        if ln.strip() and len(ln) < 200000 and '"Reset"' not in ln:
+                            self.samples.append(abbreviate(json.loads(ln)))
+                            took += 1
+                            if took >= 2:
+                                break
             except Exception:
                 pass
         results = run_parallel([one(p) for p in traces])
@@ -447,7 +464,7 @@ class Check:
         self.distinct += stats.get("distinct", 0)
         for s in stats.get("samples", []):
             if len(self.samples) < 8:
-                self.samples.append(s)
+                self.samples.append(abbreviate(s))
 
 
 def main_wrapper(fn):
